@@ -175,3 +175,30 @@ def run(ctx):
                              ("instantiate stores config.%s = %s: the deployer keeps that role after transferring ownership" % (f_, bad)) if bad else
                              "%d config stores at instantiate; config.%s never derives from info.sender" % (n_st, f_))
         # the guard item must be the same item: implied by the matchers (const / config field); count Admin consts
+
+    # ---------------------------------------------------------------- R09.5
+    # "pause only for the pauser": the pause flag of the engine State is changed by the SetPause arm alone; every other
+    # store of State - on any execute arm or reply - keeps the loaded flag (a State rebuilt from scratch inside a helper
+    # would silently un-pause the engine in someone else's transaction)
+    from .em import EM, STATE
+    from .posflow import ENG
+    ctx.rule("R09.5", "the engine's pause flag is written only by SetPause: every other store of State keeps the loaded flag", 6)
+    em = EM(ctx)
+    n5 = 0
+    for (st, root, depth, ckey) in sorted(em.steps.values(), key=lambda x: (x[3], x[2])):
+        if root == "SetPause":
+            continue
+        bad = None
+        stores = 0
+        for q in st.ok_paths():
+            for wr in st.writes(q):
+                if wr["item"] != STATE or wr["kind"] != "write" or wr["value"] is None:
+                    continue
+                stores += 1
+                pv = ix.inline(st.c(sym.field(wr["value"], "pause")))
+                if not guards.is_field_of_item(ix, pv, ENG, STATE, "pause"):
+                    bad = bad or "stores State with pause = %s" % sym.show(pv, 5)[:160]
+        if stores:
+            n5 += 1
+            ctx.inst("R09.5", "pause-preserved:%s:%s" % (short_fn(st.fn), st.label), bad is None, st.fn.where(),
+                     "%d State stores; %s" % (stores, bad or "each keeps the loaded pause flag"))
